@@ -138,7 +138,7 @@ def check_triples(ctx, cases):
 
 def gen_cases(ctx):
     rng = ctx.rng
-    n = 70 if ctx.tier == 'quick' else 1200
+    n = 130 if ctx.tier == 'quick' else 1500
     combos = mergelib.all_combos()
     cases = []
     for i in range(n):
